@@ -17,7 +17,7 @@ import (
 func init() {
 	setTier("C11", 200000, 150, 6000000, 1500)
 	levelOf["C11"] = "exploration"
-	ruleOf["C11"] = "one run = one seeded scenario (queue kind, capacity, prologue, 1-3 producers and 1-3 consumers with 1-4 ops each) under one seeded schedule (plus: callbacks installed or not, timed gets up to 1 s, producers pausing up to 1.2 s, a neighbour queue, server-time-sync faults); non-trivial = at least one context switch happened while a task was inside a recorded queue operation; distinct = distinct FNV fingerprint of (context-switch sequence as (task, file:line), fault sequence, recorded history outcome)"
+	ruleOf["C11"] = "one run = one seeded scenario (queue kind, capacity incl. zero and negative = unbounded, prologue, 1-3 producers and 1-3 consumers with 1-4 ops each) under one seeded schedule (plus: callbacks installed or not, timed gets up to 1 s, producers pausing up to 1.2 s, a neighbour queue, server-time-sync faults); non-trivial = at least one context switch happened while a task was inside a recorded queue operation; distinct = distinct FNV fingerprint of (context-switch sequence as (task, file:line), fault sequence, recorded history outcome)"
 	assumptionsOf["C11"] = []string{
 		"preemption is possible between any two statements of the instrumented packages (util/queue, util/list, util/dateutil) and inside lock/cond/sleep operations, not inside a single statement",
 		"sync.Mutex/sync.Cond/time.Sleep/time.Now are replaced by simulator models with the documented semantics (no spurious Cond wake-ups, mutex barging allowed)",
